@@ -127,6 +127,48 @@ def to_frame(table):
     return pd.DataFrame([tuple(r) for r in table["rows"]], columns=cols)
 
 
+def pick(case, salt, n):
+    """An integer in 0..n-1 that is a pure function of the case JSON and a salt (replays see the same choice)."""
+    import json
+    import zlib
+
+    return zlib.crc32((salt + json.dumps(case, sort_keys=True, default=str)).encode()) % n
+
+
+def row_order(case, keys, salt="order"):
+    """The order in which a table's rows arrive: as built (half of the cases), chromosomes interleaved round-robin,
+    reversed, or shuffled - a pure function of the case JSON; an explicit case["row_order"] (a mode name) wins.
+    keys = the chromosome of every row; returns the list of row positions in arrival order."""
+    import json
+    import random
+    import zlib
+
+    n = len(keys)
+    h = zlib.crc32((salt + json.dumps(case, sort_keys=True, default=str)).encode())
+    mode = case["row_order"] if isinstance(case, dict) and "row_order" in case else \
+        ["asis", "asis", "asis", "asis", "interleave", "reverse", "shuffle", "tail"][h % 8]
+    idx = list(range(n))
+    if mode == "interleave":
+        groups = {}
+        for i, k in enumerate(keys):
+            groups.setdefault(k, []).append(i)
+        out = []
+        lists = list(groups.values())
+        for j in range(max((len(g) for g in lists), default=0)):
+            out += [g[j] for g in lists if j < len(g)]
+        return out
+    if mode == "reverse":
+        return idx[::-1]
+    if mode == "shuffle":
+        random.Random(h).shuffle(idx)
+        return idx
+    if mode == "tail" and n > 2:
+        # a few rows of the first chromosome appended after everything else (two stacked tables)
+        k = max(1, sum(1 for x in keys if x == keys[0]) // 3)
+        return idx[k:] + idx[:k]
+    return idx
+
+
 COORD_DTYPES = ["int64", "int64", "int64", "int64", "int32", "uint32", "uint64", "float64"]
 
 
